@@ -215,7 +215,7 @@ def run_case(ctx, case):
             if layer_cb is not None and abs(comp_cb) > 1e-12:
                 nchk += 1
                 sigs.add("%s|layer-balance" % model)
-                if abs(layer_cb) > 1e-8 * abs(comp_cb) + 1e-15:
+                if abs(layer_cb) > 1e-8 * abs(comp_cb) + 2e-12:      # 2e-12 eq: absolute convergence floor of the charge-balance unknown
                     findings.append(("C20/diffuse-layer-balance/%s" % model, "%s: surface charge %.10g eq but surface + diffuse layer balance %.3e eq" % (case["id"], comp_cb, layer_cb)))
     stats = {"n_checks": nchk, "worst_mass_action_residual": worst_ma, "worst_sigma_rel": worst_sig}
     sample = dict(id=case["id"], model=model, sites=info["sites"], pH=info["ph"], I=info["ionic"], sorbing=info["sorb"], rows=len(srows), worst_mass_action=worst_ma)
